@@ -3,7 +3,7 @@ from symex.runner import Harness
 from symex.engine import PathEnd
 from props.zmq_u import *
 
-FA = [('', '', [['main']]), ('', ';main', [['main', 'mainx']]), ('', ';main>m;_hid', [['_hidx', 'main', '_hid', 'aux']]), ('', ';*', [['main', '_hid']])]
+FA = [('', '', [['main']]), ('', ';main', [['main', 'mainx'], ['mainx']]), ('', ';main>m;_hid', [['_hidx', 'main', '_hid', 'aux']]), ('', ';*', [['main', '_hid']])]
 FB = [('', '', [['x', '_h']]), ('', ';x', [['x', 'xy']]), ('', ';x>y;xy', [['x', 'xy']]), ('', ';*', [['x', '_h']]), ('', ';x;', [['x', 'main2']])]
 
 
